@@ -328,7 +328,10 @@ def run_case(case, ctx):
     E = Env()
     E.N = N
     cores = {k: gens.make_cores(N, case['R'][k], dt, 'gauss', g, M=N if k == 'A' else None) for k in 'abcA'}
-    cores = {k: [c * 0.7 for c in v] for k, v in cores.items()}
+    # operand magnitude: 0.7 per core, or an overall factor 1e-3 / 1e-5 / 1e2 on the first core (absolute stabilisers show on small operands)
+    mag = [1.0, 1.0, 1.0, 1e-3, 1e-5, 1e2][case['seed'] % 6]
+    cores = {k: [c * 0.7 * (mag if j == 0 else 1.0) for j, c in enumerate(v)] for k, v in cores.items()}
+    ctx.count('magnitude:%g' % mag)
     E.tt = {k: torchtt.TT([c.clone() for c in v]) for k, v in cores.items()}
     leaf = {k: [c.clone().requires_grad_(True) for c in v] for k, v in cores.items()}
     E.dn = {k: contract(v) for k, v in leaf.items()}
@@ -392,7 +395,7 @@ def run_case(case, ctx):
     ref = eval_dense(case['expr'], E)
     # value agreement first (a wrong value makes the gradient comparison meaningless)
     # 1e-6 relative (+1e-6 absolute): sqrt-type nodes amplify roundoff near zero (norm of an exactly cancelling tensor is ~1e-8, not 0)
-    if abs(float(val.detach()) - float(ref.detach())) > 1e-6 * (1 + abs(float(ref.detach()))):
+    if abs(float(val.detach()) - float(ref.detach())) > 1e-6 * (min(1.0, mag) ** 2 + abs(float(ref.detach()))):
         ctx.viol('expr/%s/clause=value' % _top(case['expr']), '%s: TT value %r, dense value %r' % (what, float(val.detach()), float(ref.detach())))
         return
     names = [k for k in 'abcA' if k in tracked]
